@@ -46,13 +46,21 @@ NULL == -9999
 Poison == -7777        \* value of an operator this semantics does not define: never equals an observed value
 
 (* ------------------------------- helpers ------------------------------- *)
-RECURSIVE Flat(_)
-Flat(ss) == IF ss = <<>> THEN <<>> ELSE Head(ss) \o Flat(Tail(ss))
+\* (recursion depth is kept logarithmic in the number of rows: joins of the small tables reach a few hundred rows
+\* and TLC evaluates recursive operators on the Java stack)
+RECURSIVE FlatRange(_, _, _)
+FlatRange(ss, lo, hi) ==
+    IF lo > hi THEN <<>>
+    ELSE IF lo = hi THEN ss[lo]
+    ELSE LET mid == (lo + hi) \div 2 IN FlatRange(ss, lo, mid) \o FlatRange(ss, mid + 1, hi)
+Flat(ss) == FlatRange(ss, 1, Len(ss))
 Count(s, x) == Cardinality({i \in DOMAIN s : s[i] = x})
 SubBag(s, t) == \A i \in DOMAIN s : Count(s, s[i]) <= Count(t, s[i])
 BagEq(s, t) == Len(s) = Len(t) /\ SubBag(s, t)
-RECURSIVE Dedup(_)
-Dedup(s) == IF s = <<>> THEN <<>> ELSE <<Head(s)>> \o Dedup(SelectSeq(Tail(s), LAMBDA y : y # Head(s)))
+\* the elements of the positions idx of s, in order
+Pick(s, idx) == [p \in 1..Cardinality(idx) |-> s[CHOOSE i \in idx : Cardinality({j \in idx : j < i}) = p - 1]]
+\* first occurrences, order kept
+Dedup(s) == Pick(s, {i \in DOMAIN s : \A j \in 1..(i - 1) : s[j] # s[i]})
 Min2(a, b) == IF a < b THEN a ELSE b
 Max2(a, b) == IF a > b THEN a ELSE b
 Abs(a) == IF a < 0 THEN -a ELSE a
@@ -60,8 +68,12 @@ RECURSIVE Gcd(_, _)
 Gcd(a, b) == IF b = 0 THEN a ELSE Gcd(b, a % b)
 \* normalised rational <<num, den>> (den > 0, lowest terms); NULL is <<NULL, 1>>
 Ratio(n, d) == LET g == Gcd(Abs(n), d) IN <<n \div g, d \div g>>
-RECURSIVE SumSeq(_)
-SumSeq(q) == IF q = <<>> THEN 0 ELSE Head(q) + SumSeq(Tail(q))
+RECURSIVE SumRange(_, _, _)
+SumRange(q, lo, hi) ==
+    IF lo > hi THEN 0
+    ELSE IF lo = hi THEN q[lo]
+    ELSE LET mid == (lo + hi) \div 2 IN SumRange(q, lo, mid) + SumRange(q, mid + 1, hi)
+SumSeq(q) == SumRange(q, 1, Len(q))
 
 (* ------------------------- three-valued logic -------------------------- *)
 B(b) == IF b THEN 1 ELSE 0
@@ -141,12 +153,12 @@ KeyLessFrom(dirs, a, b, i) ==
     ELSE IF a[i] = b[i] THEN KeyLessFrom(dirs, a, b, i + 1)
     ELSE IF dirs[i] THEN a[i] > b[i] ELSE a[i] < b[i]
 KeyLess(dirs, a, b) == KeyLessFrom(dirs, a, b, 1)
-RECURSIVE SortCand(_, _), InsertCand(_, _, _)
-InsertCand(dirs, x, s) ==
-    IF s = <<>> THEN <<x>>
-    ELSE IF KeyLess(dirs, x.key, Head(s).key) THEN <<x>> \o s
-    ELSE <<Head(s)>> \o InsertCand(dirs, x, Tail(s))
-SortCand(dirs, s) == IF s = <<>> THEN <<>> ELSE InsertCand(dirs, Head(s), SortCand(dirs, Tail(s)))
+\* stable sort by rank: position of candidate i = 1 + the number of candidates that have to precede it
+SortCand(dirs, s) ==
+    LET n == Len(s)
+        before(j, i) == KeyLess(dirs, s[j].key, s[i].key) \/ (j < i /\ ~KeyLess(dirs, s[i].key, s[j].key))
+        ranks == [i \in 1..n |-> 1 + Cardinality({j \in 1..n : before(j, i)})] \o <<>>   \* (evaluated once)
+    IN [p \in 1..n |-> s[CHOOSE i \in 1..n : ranks[i] = p]]
 
 RECURSIVE Rel(_, _, _), Cand(_, _, _), RowsOf(_, _, _)
 
